@@ -162,6 +162,19 @@ func c10Contexts(lit string) []escCase {
 		mk("loop-body", "@each(i in [1, 2, 3])[{{ "+lit+" }}]@end", "[", "]["+c10Escape(rawOf(lit))+"]["+c10Escape(rawOf(lit))+"]"),
 		mk("for-body", "@for(i = 0; i < 2; i++)[{{ x = "+lit+"; x }}]@end", "[", "]["+c10Escape(rawOf(lit))+"]"),
 		mk("plain-after-upper", "{{ v = "+lit+" }}{{ v.upper().len() }}[{{ v }}]", "", "]"),
+		// the literal as an argument of a built-in that places it in its result
+		mk("join-separator", "[{{ ['p', 'q'].join("+lit+") }}]", "[p", "q]"),
+		mk("join-separator-twice", "[{{ [1, 2, 3].join("+lit+") }}]", "[1", "2"+c10Escape(rawOf(lit))+"3]"),
+		mk("decimal-separator", "[{{ 12.decimal("+lit+") }}]", "[12", "00]"),
+		mk("decimal-separator-of-string", "[{{ '7'.decimal("+lit+", 1) }}]", "[7", "0]"),
+		mk("truncate-ellipsis", "[{{ 'abcdef'.truncate(3, "+lit+") }}]", "[abc", "]"),
+		mk("then-value", "[{{ true.then("+lit+") }}]", "[", "]"),
+		mk("then-else-value", "[{{ false.then('no', "+lit+") }}]", "[", "]"),
+		mk("appended", "[{{ ['p'].append("+lit+")[1] }}]", "[", "]"),
+		mk("prepended-joined", "[{{ ['p'].prepend("+lit+").join('|') }}]", "[", "|p]"),
+		mk("repeated", "[{{ "+lit+".repeat(2) }}]", "[", c10Escape(rawOf(lit))+"]"),
+		mk("sliced-array", "[{{ ['p', "+lit+", 'q'].slice(1, 2)[0] }}]", "[", "]"),
+		mk("reversed-array", "[{{ ["+lit+", 'p'].reverse()[1] }}]", "[", "]"),
 		// the literal handed to a registered Go function that gives it back: it is still the literal's text
 		mk("custom-identity", "[{{ "+lit+".zzSame() }}]", "[", "]"),
 		mk("custom-identity-of-variable", "{{ v = "+lit+" }}[{{ v.zzSame() }}]", "[", "]"),
